@@ -17,7 +17,7 @@ from vlib.coqlit import *
 ID = "C19"
 COQ_PROPS = "Props/C19.v"
 THEOREMS = ["C19_no_state", "C19_no_state_nitool", "C19_seq", "C19_args", "C19_filter", "C19_default_regexes",
-            "C19_names", "C19_name_choice", "C19_names_main", "C19_paths_main", "C19_paths_global_refuted", "C19_one_per_group",
+            "C19_names", "C19_name_choice", "C19_names_main", "C19_paths_main", "C19_names_global", "C19_paths_global", "C19_one_per_group",
             "C19_inject", "C19_inject_effect", "C19_inject_unique",
             "C19_split", "C19_merge", "C19_merge_sorted", "C19_dump_embed", "C19_lookup", "C19_inject_file"]
 ALLOWED_AXIOMS = []
@@ -36,9 +36,8 @@ ASSUMPTIONS = [
     "the suffix format is zero padded ('-%03d'): required by the injectivity proof, re-checked from the translated literal",
     "nitool inject: multiplicity-1 classifications store a scalar (convert_values unwraps single values) -- modelled as is; values are ASCII ints / decimals / words; --sort keys are ints",
     "nitool embed without --force-overwrite on a file that has an extension asks on stdin: modelled by the `confirm` input, not exercised",
-    "dcmstack --dest-dir is exercised with ONE source directory: output names are unique per source directory only, so equal names from "
-    "different directories overwrite each other in a shared destination (finding `dest-dir-collision`, Coq: C19_paths_global_refuted); "
-    "the reproducer case is generated when known-findings.txt lists it as open",
+    "C19_paths_global: the output extension contains no '/', and without --dest-dir the source directories are pairwise different "
+    "directories (generated: d0, d1)",
 ]
 
 # ------------------------------------------------------------------------------------------------ helpers
@@ -625,14 +624,6 @@ def sanitize(s):
 
 # ================================================================================================ part: state
 
-def _finding_registered(sig):
-    p = os.path.join(os.path.dirname(os.path.dirname(os.path.abspath(__file__))), 'known-findings.txt')
-    try:
-        return any(re.match(r'open:\s+property=C19\s+sig=%s\b' % re.escape(sig), l.strip()) for l in open(p))
-    except OSError:
-        return False
-
-
 class State:
     NAME = "state"
     CORR_REQUIRE = "From DV Require Import Generated.T_cli Cli.Model Cli.Corr."
@@ -642,7 +633,7 @@ class State:
     SHARD = 5
     IMPL_TIMEOUT = 240
     RULE = ("sequences of 2-4 dcmstack invocations in one process over 1-2 generated directories (1-3 series of 1-3 slices x 1-2 "
-            "time points, 2x2 pixels): -e/-i lists, --embed-meta/--dump-meta, --voxel-order, --time-var with and without an order "
+            "time points, 2x2 pixels; equal series numbers / protocol names across directories are frequent): -e/-i lists, --embed-meta/--dump-meta, --voxel-order, --time-var with and without an order "
             "file, --group-by, --output-name/--output-ext/--dest-dir, --extract-private, --disable-translator, --force-read, "
             "--strict, plus the print-and-exit options and the error exits (no source directory, bad translator tag, an incongruent "
             "file under --strict, incomplete stack); non-trivial = some invocation carries -e/-i and a later one does not")
@@ -689,7 +680,6 @@ class State:
             o['output_ext'] = rng.choice(['.nii', '.nii.gz'])
         if rng.random() < 0.3:
             o['dest_dir'] = 'out%d' % k
-            o['src_dirs'] = o['src_dirs'][:1]     # names are unique per source directory only (finding: dest-dir-collision)
         if rng.random() < 0.15:
             o['extract_private'] = True
         if rng.random() < 0.15:
@@ -709,12 +699,13 @@ class State:
                 'invs': [dict(OPT_DEFAULT, src_dirs=['d0'], exclude_regex=['Foo'], include_regex=['Bar'], embed_meta=True),
                          dict(OPT_DEFAULT, src_dirs=['d0'], embed_meta=True),
                          dict(OPT_DEFAULT, src_dirs=['d0'], default_regexes=True)]}]
-        if _finding_registered('dest-dir-collision'):
-            out.append({'kind': 'dest-dir-collision',
-                        'dirs': [[{'uid': 1, 'num': 8, 'proto': 'b c', 'descr': None, 'S': 2, 'T': 1}],
-                                 [{'uid': 2, 'num': 8, 'proto': 'b c', 'descr': None, 'S': 2, 'T': 1}]],
-                        'invs': [dict(OPT_DEFAULT, src_dirs=['d0', 'd1'], dest_dir='out0', embed_meta=True),
-                                 dict(OPT_DEFAULT, src_dirs=['d0'])]})
+        # F18: equal names from two source directories in one destination
+        out.append({'kind': 'f18',
+                    'dirs': [[{'uid': 1, 'num': 8, 'proto': 'b c', 'descr': None, 'S': 2, 'T': 1}],
+                             [{'uid': 2, 'num': 8, 'proto': 'b c', 'descr': None, 'S': 2, 'T': 1}]],
+                    'invs': [dict(OPT_DEFAULT, src_dirs=['d0', 'd1'], dest_dir='out0', embed_meta=True),
+                             dict(OPT_DEFAULT, src_dirs=['d0', 'd1'], dest_dir='out1', output_name='x'),
+                             dict(OPT_DEFAULT, src_dirs=['d0', 'd1'])]})
         for i in range(n):
             nd = rng.choice([1, 1, 2])
             dirs = []
@@ -722,7 +713,7 @@ class State:
             for j in range(nd):
                 ser = []
                 for s in range(rng.randrange(1, 4)):
-                    ser.append({'uid': uid, 'num': rng.randrange(1, 9), 'proto': rng.choice(['a', 'a', 'b c', 'a-001']),
+                    ser.append({'uid': uid, 'num': rng.randrange(1, 4), 'proto': rng.choice(['a', 'a', 'b c', 'a-001']),
                                 'descr': rng.choice(['sd', None]), 'S': rng.randrange(1, 4), 'T': rng.choice([1, 1, 2])})
                     uid += 1
                 dirs.append(ser)
